@@ -222,6 +222,29 @@ Proof.
   apply refute_by_fault. intros d. vm_compute. discriminate.
 Qed.
 
+(** C10-F9: a local name containing its own prefix again (here the empty prefix and
+    a ':' in the local name): every occurrence is replaced by the namespace *)
+Lemma C10_prefix_in_local_refuted :
+  exists tg cs fmt orc G, rc_prefix_in_local tg = true /\ ~ C10_statement tg cs fmt orc G.
+Proof.
+  exists {| t_ns := [(Str "http://e/", []); (Str "http://sh/", Str "sh")]; t_tau := Full c_RDF_TYPE;
+            t_classes := None; t_all := false;
+            t_items := Some [ {| it_sel := SelNode (Pref [] (Str "tax:9606")); it_label := Angle (Str "http://sh/S0") |} ] |},
+         ClsList, FmtFixed, ex_orc, [T (iri_node (Str "http://e/tax:9606")) c_RDF_TYPE C0].
+  split; [vm_compute; reflexivity|].
+  eapply (refute_by_missing _ _ _ _ _ _ (KLabel (Str "http://sh/S0")) (iri_node (Str "http://e/tax:9606")));
+    vm_compute; reflexivity.
+Qed.
+
+(** ... while a ':' in the local name of any other prefix is inside the domain *)
+Example C10_colon_in_local_name :
+  let tg := one_item (SelFocusSubj FA (FIri (Pref (Str "ex") (Str "K:1")))) (Pref (Str "sh") (Str "S:0")) false in
+  let G := [T (iri_node (Str "http://e/tax:9606")) c_RDF_TYPE (ON (iri_node (Str "http://e/K:1")));
+            T (iri_node (Str "http://e/tax")) c_RDF_TYPE (ON (iri_node (Str "http://e/K")))] in
+  C10_dom_count tg ex_orc G = true /\
+  run ex_orc (to_tspec tg ClsList FmtFixed) G = OOk [(Str "http://e/tax:9606", [Str "<http://sh/S:0>"])].
+Proof. vm_compute. split; reflexivity. Qed.
+
 (** C10-F5: two keys of one specification get one shape name (the dictionary is right) *)
 Lemma C10_same_shape_name_witness :
   exists tg orc G,
